@@ -288,12 +288,19 @@ Parse(argv) ==
         groups == [g \in 1..n |-> GroupCommand(Group(argv, g), inputs)]
         defs == ArgsOf(argv, "define")
     IN
-    IF \E g \in 1..n : groups[g].why # ""
+    \* (where only the usage text or the version is shown nothing is written: output names are not looked at)
+    IF ~Has(argv, "help") /\ ~Has(argv, "version") /\ \E g \in 1..n : groups[g].why # ""
     THEN [ok |-> FALSE, why |-> groups[CHOOSE g \in 1..n : groups[g].why # "" /\ \A h \in 1..(g - 1) : groups[h].why = ""].why]
+    \* two groups cannot deliver to one file (given or derived name alike)
+    ELSE IF ~Has(argv, "help") /\ ~Has(argv, "version") /\ \E g, h \in 1..n : /\ g < h /\ ~groups[g].print /\ ~groups[h].print
+                              /\ groups[g].file # <<>> /\ groups[g].file = groups[h].file
+    THEN [ok |-> FALSE, why |-> "output-twice"]
     ELSE [ok |-> TRUE,
           inputs |-> inputs,
+          \* (no name is derived where only the usage text or the version is shown)
           groups |-> [g \in 1..n |-> [format |-> groups[g].format, print |-> groups[g].print,
-                                      file |-> groups[g].file]],
+                                      file |-> IF (Has(argv, "help") \/ Has(argv, "version")) /\ ~Has(Group(argv, g), "output")
+                                               THEN <<>> ELSE groups[g].file]],
           quiet |-> Has(argv, "quiet"),
           help |-> Has(argv, "help"),
           version |-> Has(argv, "version"),
